@@ -179,6 +179,15 @@ Theorem C16_views_disjoint : forall d p q,
 Proof. exact c_views_disjoint. Qed.
 Print Assumptions C16_views_disjoint.
 
+(* ... and they cover the tensor: every element offset lies in the range of a valid partial index of every length
+   k <= rank (guard: all dimensions positive, i.e. the tensor is not empty); with C16_views_disjoint: a partition *)
+Theorem C16_views_cover : forall d k o,
+  Forall (fun x => 0 < x) d -> (k <= length d)%nat -> 0 <= o < size d ->
+  exists p, length p = k /\ validpb d p = true /\
+    let '(b, n) := view_vector d p in b <= o < b + n.
+Proof. exact c_views_cover. Qed.
+Print Assumptions C16_views_cover.
+
 Example C16_compose_nonvacuous :
   validpb [3; 4; 5] ([2] ++ [3]) = true /\ view_tensor [4; 5] [3] = (15, [5]) /\ view_tensor [3; 4; 5] [2] = (40, [4; 5]) /\
   slice_validb [6; 2] 1 5 = true /\ slice_validb (snd (view_slice [6; 2] 1 5)) 1 3 = true /\
